@@ -190,3 +190,4 @@ def shard(ctx):
     from ..engines import realpar
     if hasattr(realpar, "c04_strategy"):
         ctx.hyp_run(realpar.c04_strategy(ctx), max_examples=ctx.pick(15, 300), label="real", shrink=False)
+        ctx.hyp_run(realpar.c04_stress_strategy(ctx), max_examples=ctx.pick(4, 40), label="stress", shrink=False)
